@@ -295,7 +295,7 @@ pub fn flate_decode(data: &[u8], params: &LZWFlateParams) -> Result<Vec<u8>> {
     // Then unfilter (PNG)
     // For this, take the old out as input, and write output to out
 
-    if predictor > 10 {
+    if predictor >= 10 {
         let inp = decoded; // input buffer
         // bytes per pixel (at least one) and per row (rounded up); hostile parameters must not overflow
         let pixel_bits = try_opt!(n_components.checked_mul(bits_per_component));
